@@ -10,8 +10,10 @@ Two independent halves:
    alternative into tokens; the expected text is `property<between>` + tokens separated by single blanks, call
    arguments by ", ", + `<after>`; when the snippet lists >= 2 alternatives and the first has no explicit field every
    leaf token (not the names of calls) is wrapped in a tabstop numbered 1..k in document order (per comma-separated
-   value the implementation starts a new counter: this generator writes no top-level comma).  What a tabstop prints is
-   the field callback's business: `${n:text}` with the harness' callback, `text` with the library default.
+   value the implementation starts a new counter: this generator writes no top-level comma; the oracle reads a
+   comma-separated list only when nothing is to be wrapped).  What a tabstop prints is the field callback's business:
+   `${n:text}` with the harness' callback, `text` with the library default.  A tabstop written close to the token before
+   it (keyword, number, #colour, string, another tabstop) stays close: `#${1:fff}`, `${1:inset }${2:hoff}`.
 
 Colours are canonicalised by the oracle itself (lower case; #aabbcc -> #abc under stylesheet.shortHex, the default),
 numbers too (`.5` -> `0.5`, `1.50` -> `1.5`); the generator mostly writes canonical forms so that "as written" is literal.
@@ -183,6 +185,9 @@ class Unreadable(Exception):
     pass
 
 
+GLUE_AFTER = ('kw', 'num', 'col', 'str', 'field', 'call')
+
+
 def read_tokens(s, i, stop):
     """tokens of s[i:] up to (not including) a top-level character of `stop` -> (tokens, position)"""
     toks = []
@@ -202,7 +207,9 @@ def read_tokens(s, i, stop):
             continue
         m = RE_FIELD.match(s, i)
         if m:
-            glued = i > 0 and s[i - 1] not in BLANK + '(,' and bool(toks) and toks[-1][0] in ('kw', 'num')
+            # "as listed": a tabstop written close to the token before it (a keyword, number, #colour, string or ANOTHER
+            # tabstop: `foo${1}`, `${1:inset }${2:hoff}`) stays close.  After the `)` of a call see FIELD_GLUED_AFTER_CALL.
+            glued = i > 0 and s[i - 1] not in BLANK + '(,' and bool(toks) and toks[-1][0] in GLUE_AFTER
             toks.append(('field', int(m.group(1)), m.group(2), glued))
             i = m.end()
             continue
@@ -210,7 +217,7 @@ def read_tokens(s, i, stop):
             j = i + 1
             while j < n and s[j] in '0123456789abcdefABCDEF':
                 j += 1
-            toks.append(('col', s[i:j]))
+            toks.append(('col', s[i:j]) if j > i + 1 else ('kw', '#'))
             i = j
             continue
         j = i
@@ -236,6 +243,18 @@ def read_tokens(s, i, stop):
             continue
         toks.append(('num', word) if re.match(r'^-?(\d|\.\d)', word) else ('kw', word))
         i = j
+
+
+def read_value_list(alt):
+    """the comma-separated values of one alternative (`Arial, "Helvetica Neue", sans-serif`) -> [tokens, ...]"""
+    parts = []
+    i = 0
+    while True:
+        toks, i = read_tokens(alt, i, ',')
+        parts.append(toks)
+        if i >= len(alt):
+            return parts
+        i += 1
 
 
 def split_alts(body):
@@ -330,14 +349,13 @@ def expected_value(source, tabstop, short_hex=True):
     if not body:
         return None
     alts = split_alts(body)
-    toks, end = read_tokens(alts[0], 0, '')
-    if end != len(alts[0]):
-        raise Unreadable('rest %r' % alts[0][end:])
-    if any(t[0] == 'call' and False for t in toks):
-        pass
+    parts = read_value_list(alts[0])
+    toks = [t for part in parts for t in part]
     wrap = len(alts) >= 2 and not toks_have_field(toks)
+    if wrap and len(parts) > 1:
+        raise Unreadable('several comma-separated values to be wrapped in tabstops')
     c = Counter()
-    return print_tokens(toks, wrap, tabstop, c, short_hex), (c.n - 1 if wrap else 0)
+    return ', '.join(print_tokens(part, wrap, tabstop, c, short_hex) for part in parts), (c.n - 1 if wrap else 0)
 
 
 def expected_line(source, between, after, tabstop, short_hex=True):
@@ -355,7 +373,7 @@ def expected_fields(source, short_hex=True):
     if not body:
         return [(0, '')]
     alts = split_alts(body)
-    toks, _ = read_tokens(alts[0], 0, '')
+    toks = [t for part in read_value_list(alts[0]) for t in part]
     wrap = len(alts) >= 2 and not toks_have_field(toks)
     out = []
     c = Counter()
@@ -413,3 +431,54 @@ def raw_expected(body, tabstop, newline='\n', lossy=False):
 def raw_in_finding_class(body):
     """a literal segment that ends with a line break (so: immediately before a tabstop, or at the end of the body)"""
     return any(seg[0] == 'lit' and re.search(r'(\r\n|\r|\n)$', seg[1]) for seg in raw_segments(body))
+
+
+# ------------------------------------------------------------------ tabstops written close to the token before them
+# (added for C06: `box-shadow:${1:inset }${2:hoff} ...` -- a tabstop directly after ANOTHER tabstop, after a #colour, after
+# a string -- was unexplored; gen_alt only glues a field to a keyword or number)
+FIELD_GLUED_AFTER_CALL = False
+"""OFF: a tabstop written directly after the `)` of a call (`x-prop:f(a)${1:x}`) is printed with a blank before it
+(`x-prop: f(a) ${1:x};`) by the library as it stands, although it keeps `a${1}`, `10px${1}`, `"s"${1}`, `#fff${1}` and
+`${1}${2}` close.  The oracle (read_tokens: GLUE_AFTER) expects "as listed" there too, so the generator class is kept
+off until that is settled."""
+GLUED_PLACEHOLDERS = [None, None, 'x', 'a ', 'inset ', 'hoff', '1px', '#000', 'a b', ' b', 'to-x']
+
+
+def gen_glued_alt(rng, calls=True):
+    """a first alternative of 1-4 groups; a group is a leaf token (keyword, number, #colour, string, tabstop) followed by
+    0-3 tabstops written close to it (no blank), also inside the arguments of a call"""
+    def field(glued):
+        return ('field', rng.randint(0, 5), rng.choice(GLUED_PLACEHOLDERS), glued)
+
+    def group(depth):
+        r = rng.random()
+        if calls and depth > 0 and r < 0.25:
+            args = [[t for _ in range(rng.choice([1, 1, 2])) for t in group(depth - 1)] for _ in range(rng.choice([1, 1, 2, 3]))]
+            out = [('call', rng.choice(FN_NAMES), args)]
+            if FIELD_GLUED_AFTER_CALL and rng.random() < 0.5:
+                out.append(field(True))
+            return out
+        if r < 0.55:
+            out = [field(False)]
+        else:
+            out = [gen_leaf(rng)]
+        for _ in range(rng.choice([0, 1, 1, 1, 2, 3])):
+            out.append(field(True))
+        return out
+
+    toks = [t for _ in range(rng.choice([1, 1, 2, 2, 3, 4])) for t in group(1)]
+    if not any(t[0] == 'field' and t[3] for t in toks):
+        if toks[-1][0] == 'call' and not FIELD_GLUED_AFTER_CALL:
+            toks.append(field(False))
+        toks.append(field(True))
+    return toks
+
+
+def gen_glued_snippet(rng):
+    """-> source string of a property snippet whose first alternative has tabstops written close to other tokens"""
+    prop = rng.choice(PROPS)
+    first = gen_glued_alt(rng)
+    alts = [render_tokens(rng, first, tidy=rng.random() < 0.6)]
+    for _ in range(rng.choice([0, 0, 1, 1, 2])):
+        alts.append(rng.choice(OTHER_ALTS))
+    return prop + rng.choice([':', ':', ': ']) + '|'.join(alts) + (';' if rng.random() < 0.1 else '')
